@@ -12,6 +12,7 @@ import (
 	"strconv"
 	"strings"
 	"sync"
+	"time"
 
 	"golang.org/x/mod/sumdb"
 	"golang.org/x/mod/sumdb/note"
@@ -294,7 +295,17 @@ func execConcRun(in runIn, ev func(k string, f any)) []core.Violation {
 		}(g, j)
 	}
 	close(start)
-	wg.Wait()
+	// a goroutine that panicked inside the client may have left one of its locks held: do not wait for ever
+	allDone := make(chan struct{})
+	go func() { wg.Wait(); close(allDone) }()
+	select {
+	case <-allDone:
+	case <-time.After(90 * time.Second):
+		vmu.Lock()
+		vs = append(vs, core.Violation{Sig: "c14:hang", What: "concurrent lookups against an honest server did not all return within 90 s"})
+		vmu.Unlock()
+		return vs
+	}
 	store.mu.Lock()
 	final := headLabelOf(store.cfg)
 	store.emit("Quiesce", map[string]any{"maxServed": store.maxN, "g": 0})
